@@ -480,6 +480,9 @@ def _scen_hist(c, inst):
     c.note("history", "".join(ops))
     A0 = [[c.real("A0_%d_%d" % (i, k)) for k in range(n)] for i in range(n)]
     A1 = [[c.real("A1_%d_%d" % (i, k)) for k in range(n)] for i in range(n)]
+    import os
+    if n == 2 and os.environ.get("C16_A1"):
+        A1 = [[Fraction(1), Fraction(-2)], [Fraction(3), Fraction(1, 2)]] if c.symbolic else [[1.0, -2.0], [3.0, 0.5]]
     user = _UserRhs(c, A0, A1, n)
     attr_jac = None
     if inst["attr"]:
@@ -529,6 +532,8 @@ def _scen_hist(c, inst):
         # ---- a Jacobian request at a fresh symbolic time and state
         t = c.real("t%d" % k)
         y0 = [c.real("y%d_%d" % (k, q)) for q in range(n)]
+        if n == 2 and os.environ.get("C16_Y"):
+            y0 = [Fraction(1 + k), Fraction(-2 + k, 2)]
         y = c.array(y0).reshape((n,))
         n_rhs0 = len(user.calls)
         n_jac0 = {id(f): len(f.calls) for f in all_jacs}
